@@ -223,9 +223,12 @@ pub open spec fn allowed_out(t: ast::TypeName, in_path: ast::Path, env: Env, in_
             ast::TypeName::Box(b) => match named_of(*b) {
                 Some(p) => is_opaque_path(p, in_path, env) && sd == StdlibOrDiplomat::Stdlib, None => false },
             ast::TypeName::Named(p) | ast::TypeName::SelfType(p) =>
-                !is_opaque_path(p, in_path, env) && !(in_struct && sd == StdlibOrDiplomat::Stdlib)
+                !is_opaque_path(p, in_path, env) && !((in_struct || in_result_option) && sd == StdlibOrDiplomat::Stdlib)
                 && allowed_out(*inner, in_path, env, in_struct, true),
-            ast::TypeName::Primitive(_) => !(in_struct && sd == StdlibOrDiplomat::Stdlib),
+            // C10: an Option of a non-pointer payload crosses as {payload, is_ok}.  The macro converts a std `Option<T>` to that
+            // encoding only at the top level of a parameter / return type; in a struct field or nested in a Result / Option arm
+            // the type is compiled as written, so only the `DiplomatOption<T>` spelling has the declared layout there
+            ast::TypeName::Primitive(_) => !((in_struct || in_result_option) && sd == StdlibOrDiplomat::Stdlib),
             _ => false,
         },
         ast::TypeName::Result(..) => false,
